@@ -1336,7 +1336,8 @@ static int cfg_parse_internal(cfg_t *cfg, int level, int force_state, cfg_opt_t 
 		}
 
 		if (tok == EOF) {
-			if (state != 0) {
+			/* also an error: end of input inside a section body */
+			if (state != 0 || (level > 0 && !force_opt)) {
 				cfg_error(cfg, _("premature end of file"));
 				goto error;
 			}
